@@ -376,3 +376,27 @@ CHECKS["C10"] = {
         "the beacon client serves a fixed spec (three domain types) and a domain that changes at a fork epoch",
     ],
 }
+
+# ---------------------------------------------------------------------------------------------------------------
+_C19R = ["github.com/obolnetwork/charon/app/forkjoin.New=.vForkJoin"]
+CHECKS["C19"] = {
+    "pkg": "./app/eth2wrap",
+    "parallel": 8,
+    "replay_tries": 12,
+    "quick": [
+        {"harness": "VerifC19Provide", "params": {"np": 2, "nf": [0, 1], "perm": [0, 2], "code": [502, 404]}, "redirects": _C19R},
+        {"harness": "VerifC19Provide", "params": {"np": 3, "nf": 2, "perm": [0, 3, 5], "code": 503}, "redirects": _C19R},
+    ],
+    "thorough": [
+        {"harness": "VerifC19Provide", "params": {"np": [1, 2, 3], "nf": [0, 1, 2, 3], "perm": [0, 1, 2, 3, 4, 5], "code": [502, 503, 504, 404, 500]}, "redirects": _C19R},
+    ],
+    "bounds": {
+        "quick": "provide-style calls: 2-3 primary and 0-2 fallback nodes; per-node outcome symbolic among success / plain error / timeout-class / syncing / http gateway status / connection refused (status code concrete per case); completion order concrete per case",
+        "thorough": "1-3 primaries, 0-3 fallbacks, all six completion orders, five status codes",
+    },
+    "outside": "the concurrency of forkjoin itself (workers, WaitGroup, context trees): replaced by an ideal fork-join delivering results in completion order, so 'does not wait for slower or hung nodes' and 'returns promptly on cancellation' are NOT claimed beyond 'returns at the first success without consuming later results'; submit-style calls (a thin wrapper over provide); the success predicate hook (nil here)",
+    "assumptions": [
+        "forkjoin.New is replaced by an ideal fork-join: every forked input is worked, results arrive in the given completion order, then the channel is closed",
+        "node errors are the error values the repository itself produces for each class (message-based timeout/syncing classes, *eth2api.Error status codes, syscall.ECONNREFUSED)",
+    ],
+}
